@@ -122,7 +122,7 @@ ENGINES = [
      "kind_free_text": "lease files from a grammar through file.Plugin.Setup4/Setup6, independent parser as model, autorefresh rewrite sequences, dual-stack"},
     {"name": "conf", "path": "harness/conf", "serves_properties": ["C18"],
      "kind_free_text": "structured configurations rendered to YAML and loaded with config.Load; mutated text; FuzzConfigLoad"},
-    {"name": "srv", "path": "harness/srv", "serves_properties": ["C01", "C11", "C12", "C13", "C15", "C16"],
+    {"name": "srv", "path": "harness/srv", "serves_properties": ["C01", "C11", "C12", "C13", "C14", "C15", "C16"],
      "kind_free_text": "datagrams fed to HandleMsg4/HandleMsg6 through the capture hook (server/verif_on.go); histories, decision tables, synthetic plugins, concurrent scenarios under -race, native fuzz targets"},
     {"name": "pd6", "path": "harness/pd6", "serves_properties": ["C08", "C09"],
      "kind_free_text": "DHCPv6 prefix-delegation message histories (wire-built requests) through prefix.Plugin.Setup6 against an owner table and held sets"},
